@@ -100,17 +100,128 @@ def getScheme (raw : Bytes) : Option (Bytes × Bytes) := getSchemeAux raw [] raw
 trailing `?`) removes the same suffix. -/
 def cutQuery (s : Bytes) : Bytes := s.takeWhile (· != qmark)
 
-/-- The authorities the model accepts in an absolute-form target:
-`[A-Za-z0-9.-]*` optionally followed by `:` and digits.  (`parseAuthority`
-accepts more — userinfo, IP literals, sub-delims; the generator stays inside
-this set, outside it the model answers like a parse error.) -/
-def simpleAuthority (a : Bytes) : Bool :=
-  let h := a.takeWhile (· != colon)
-  let p := a.dropWhile (· != colon)
-  h.all (fun c => isAlnumB c || c == dot || c == dash) &&
-    (match p with
-     | [] => true
-     | _ :: digits => digits.all isDigitB)
+/-! ### `parseAuthority` / `parseHost` (net/url, Go 1.26) -/
+
+/-- `!shouldEscape(c, encodeHost)`; the `encodeZone` column of
+net/url/encoding_table.go is the same set. -/
+def hostSafe (c : Nat) : Bool :=
+  isAlnumB c ||
+    [33, 34, 36, 38, 39, 40, 41, 42, 43, 44, 45, 46, 58, 59, 60, 61, 62, 91, 93, 95, 126].contains c
+
+/-- First loop of `unescape(s, encodeHost)`: a `%XY` must be well formed and,
+unless it is `%25`, stand for a byte ≥ 0x80; any other ASCII byte must be
+allowed raw in a host. -/
+def unescCheckHost : Bytes → Bool
+  | [] => true
+  | c :: rest =>
+    if c = pct then
+      match rest with
+      | a :: b :: rest' =>
+        isHex a && isHex b && (decide (8 ≤ unhex a) || (a == 50 && b == 53)) && unescCheckHost rest'
+      | _ => false
+    else (decide (128 ≤ c) || hostSafe c) && unescCheckHost rest
+
+/-- First loop of `unescape(s, encodeZone)`: a `%XY` other than `%25` must
+stand for a space or for a byte allowed raw in a host. -/
+def unescCheckZone : Bytes → Bool
+  | [] => true
+  | c :: rest =>
+    if c = pct then
+      match rest with
+      | a :: b :: rest' =>
+        isHex a && isHex b &&
+          ((a == 50 && b == 53) || unhex a * 16 + unhex b == 32 || hostSafe (unhex a * 16 + unhex b)) &&
+          unescCheckZone rest'
+      | _ => false
+    else (decide (128 ≤ c) || hostSafe c) && unescCheckZone rest
+
+def unescapeHost (s : Bytes) : Option Bytes := if unescCheckHost s then some (unescBuild s) else none
+def unescapeZone (s : Bytes) : Option Bytes := if unescCheckZone s then some (unescBuild s) else none
+
+/-- `strings.IndexByte` -/
+def indexOf (x : Nat) : Bytes → Option Nat
+  | [] => none
+  | c :: t => if c = x then some 0 else (indexOf x t).map (· + 1)
+
+/-- `strings.LastIndexByte` -/
+def lastIndexOf (x : Nat) (s : Bytes) : Option Nat :=
+  (indexOf x s.reverse).map fun i => s.length - 1 - i
+
+/-- `strings.Index(s, "%25")` -/
+def indexPct25 : Bytes → Option Nat
+  | [] => none
+  | c :: t => if (c :: t).take 3 = [37, 50, 53] then some 0 else (indexPct25 t).map (· + 1)
+
+/-- `validOptionalPort`: empty or `:` followed by digits. -/
+def validOptionalPort (p : Bytes) : Bool :=
+  match p with
+  | [] => true
+  | c :: digits => c == colon && digits.all isDigitB
+
+/-- `validUserinfo` (ranges over runes: a byte ≥ 0x80 is never accepted). -/
+def validUserinfo (s : Bytes) : Bool :=
+  s.all fun c =>
+    isAlnumB c || [45, 46, 95, 58, 126, 33, 36, 38, 39, 40, 41, 42, 43, 44, 59, 61, 37, 64].contains c
+
+/-- What the parser takes from its environment. -/
+structure UrlEnv where
+  /-- GODEBUG `urlstrictcolons` is not "0" (the default depends on the `go`
+  line of the main module) -/
+  strictColons : Bool
+  /-- oracle: `netip.ParseAddr` accepts the unescaped content of a bracketed
+  host and it is not an IPv4 address -/
+  ipLitOK : Bool
+
+def httpS : Bytes := [104, 116, 116, 112]
+def httpsS : Bytes := [104, 116, 116, 112, 115]
+
+/-- `parseHost(scheme, host)`; `scheme` is already lower-cased. -/
+def parseHost (e : UrlEnv) (scheme host : Bytes) : Option Bytes :=
+  match lastIndexOf 91 host with
+  | some (_ + 1) => none                       -- "invalid IP-literal"
+  | some 0 =>
+    match lastIndexOf 93 host with
+    | none => none                             -- "missing ']' in host"
+    | some cb =>
+      let colonPort := host.drop (cb + 1)
+      if !validOptionalPort colonPort then none
+      else
+        let hostname := (host.take cb).drop 1
+        let uh : Option Bytes :=
+          match indexPct25 hostname with
+          | some z =>
+            (match unescapeHost (hostname.take z), unescapeZone (hostname.drop z) with
+             | some a, some b => some (a ++ b)
+             | _, _ => none)
+          | none => unescapeHost hostname
+        match uh with
+        | none => none
+        | some u => if e.ipLitOK then some (91 :: u ++ 93 :: colonPort) else none
+  | none =>
+    let portOK :=
+      match indexOf colon host with
+      | none => true
+      | some i =>
+        let last := (lastIndexOf colon host).getD i
+        let i' := if last ≠ i ∧ (¬ (scheme = httpS ∨ scheme = httpsS) ∨ e.strictColons = false) then last else i
+        validOptionalPort (host.drop i')
+    if portOK then unescapeHost host else none
+
+/-- `parseAuthority`: the host, `none` on any error. -/
+def parseAuthority (e : UrlEnv) (scheme auth : Bytes) : Option Bytes :=
+  match lastIndexOf 64 auth with
+  | none => parseHost e scheme auth
+  | some i =>
+    match parseHost e scheme (auth.drop (i + 1)) with
+    | none => none
+    | some h =>
+      let ui := auth.take i
+      if !validUserinfo ui then none
+      else if !ui.contains colon then (if unescCheck ui then some h else none)
+      else
+        let user := ui.takeWhile (· != colon)
+        let pass := (ui.dropWhile (· != colon)).drop 1
+        if unescCheck user && unescCheck pass then some h else none
 
 structure URL where
   /-- `URL.Host` (authority of an absolute-form target) -/
@@ -122,7 +233,7 @@ structure URL where
   deriving DecidableEq, Repr
 
 /-- Everything of `parse` before `setPath`: `(host, rawPath)`. -/
-def splitTarget (raw : Bytes) : Option (Bytes × Bytes) :=
+def splitTarget (e : UrlEnv) (raw : Bytes) : Option (Bytes × Bytes) :=
   if raw = [] then none
   else match getScheme raw with
     | none => none
@@ -134,12 +245,14 @@ def splitTarget (raw : Bytes) : Option (Bytes × Bytes) :=
       else if scheme ≠ [] ∧ rest.take 2 = [slash, slash] then
         let a := (rest.drop 2).takeWhile (· != slash)
         let p := (rest.drop 2).dropWhile (· != slash)
-        if simpleAuthority a then some (a, p) else none
+        match parseAuthority e (lower scheme) a with
+        | some h => some (h, p)
+        | none => none
       else some ([], rest)
 
-def parseRequestURI (raw : Bytes) : Option URL :=
+def parseRequestURI (e : UrlEnv) (raw : Bytes) : Option URL :=
   if hasCTL raw then none
-  else match splitTarget raw with
+  else match splitTarget e raw with
     | none => none
     | some (host, rp) =>
       match unescape rp with
@@ -190,6 +303,8 @@ structure Conf where
   certNames : List Bytes
   /-- `TLSAllowUnencryptedDoH` -/
   plainDoH : Bool
+  /-- GODEBUG `urlstrictcolons` of the server binary (see `UrlEnv`) -/
+  urlStrictColons : Bool
 
 structure Req where
   tr : Tr
@@ -206,6 +321,8 @@ structure Req where
   hostSplit : Option Bytes
   /-- the request carries a DNS message dnsproxy accepts -/
   dnsOK : Bool
+  /-- oracle for a bracketed host in an absolute-form target (see `UrlEnv`) -/
+  ipLitOK : Bool
   /- inputs nothing in the ClientID pipeline reads: -/
   peer : Bytes
   edns : Bytes
@@ -251,11 +368,13 @@ def anyNameMatches (names : List Bytes) (sni : Bytes) (validHost : Bool) : Bool 
 /-- Everything that happens to a DoH request before dnsproxy creates the DNS
 context; reads the transport, the raw target and whether a DNS message is
 carried — nothing else of the request. -/
-def gateHTTP (cf : Conf) (tr : Tr) (target : Bytes) (dnsOK : Bool) : Except Out URL :=
+def envOf (cf : Conf) (ipLitOK : Bool) : UrlEnv := { strictColons := cf.urlStrictColons, ipLitOK := ipLitOK }
+
+def gateHTTP (cf : Conf) (tr : Tr) (target : Bytes) (dnsOK ipLitOK : Bool) : Except Out URL :=
   let bad : Out := if tr == .h2 then .rst else .http 400
   if tr != .h2 && target.contains space then .error (.http 400)
   else if target = [star] then .error (.http 400)
-  else match parseRequestURI target with
+  else match parseRequestURI (envOf cf ipLitOK) target with
     | none => .error bad
     | some u =>
       let esc := escapedPath u
@@ -266,10 +385,22 @@ def gateHTTP (cf : Conf) (tr : Tr) (target : Bytes) (dnsOK : Bool) : Except Out 
       else if !dnsOK then .error (.http 400)
       else .ok u
 
+/-- httpguts `validHostByte` -/
+def validHostByte (c : Nat) : Bool :=
+  isAlnumB c || [33, 36, 37, 38, 40, 41, 42, 43, 44, 45, 46, 58, 59, 61, 91, 39, 93, 95, 126].contains c
+
+/-- The Host header / `:authority` as the transport accepts it: HTTP/1.x
+requires `httpguts.ValidHostHeader` ("malformed Host header", 400); h2 only a
+valid header field value (else the stream is reset). -/
+def hostFieldOK (tr : Tr) (host : Bytes) : Bool :=
+  if tr == .h2 then host.all fun b => !((decide (b < 32) && b != 9) || b == 127)
+  else host.all validHostByte
+
 def frontHTTP (cf : Conf) (r : Req) : Except Out Ctx :=
-  match gateHTTP cf r.tr r.target r.dnsOK with
-  | .error o => .error o
-  | .ok u => .ok (mkCtxHTTP cf r u.host u.path)
+  if !hostFieldOK r.tr r.host then .error (if r.tr == .h2 then .rst else .http 400)
+  else match gateHTTP cf r.tr r.target r.dnsOK r.ipLitOK with
+    | .error o => .error o
+    | .ok u => .ok (mkCtxHTTP cf r u.host u.path)
 
 /-- …and to a DoT / DoQ connection. -/
 def frontTLS (cf : Conf) (r : Req) (p : Proto) : Except Out Ctx :=
